@@ -356,8 +356,13 @@ def corr_enuc(ctx: Ctx, drv):
 
 
 def run(ctx: Ctx):
+    from ..translate import gen as _gen
+    _gen.regenerate(ctx, ["CoreCoreGen"])
     leanproj.check_theorems(ctx, MODULE, THEOREMS)
-    from .registry import THEOREMS_C01B
+    from .registry import THEOREMS_C01B, THEOREMS_CORECORETIE
+    # translator tie: pair_nuclear_energy and the hand-written core_core_der, as they stand in the source, are the model's functions (whose
+    # derivative relation C01.* proves), and they use the same N-H/O-H mask
+    leanproj.check_theorems(ctx, "PyseqmVerif.Properties.CoreCoreTie", THEOREMS_CORECORETIE)
     leanproj.check_theorems(ctx, "PyseqmVerif.Properties.C01b", THEOREMS_C01B)
     drv = leanproj.Driver()
     try:
